@@ -112,6 +112,7 @@ func (e *Env) modelDecodeOne(l *facts.Level, rule string) *decodeOneModel {
 	for _, why := range badRep {
 		c.Undecided(rule, who+" names representation", pos, why)
 	}
+	leaves = e.canonPredicates(leaves)
 	m.Leaves = leaves
 	str := &ir.Term{Op: ir.OParam, N: 1}
 	// the tokeniser: strings.Split(token, ":") with the shape test len == 2 && both parts non-empty, or
@@ -657,3 +658,73 @@ func (m *decodeOneModel) armNames() []string {
 }
 
 var _ = spec.V3
+
+// canonPredicates: a boolean method without parameters of an enumeration type of the library that is, on the
+// whole domain of the type - every declared constant, the numbers next to them, any other number -, exactly
+// "x != zero constant" (IsValid of the v2 types) or "x == zero constant" is read as that comparison in the
+// conditions of the paths: `v.IsValid()` after `v = GetX(code)` is the test `v != XInvalid` the rules look for.
+func (e *Env) canonPredicates(leaves []*ir.Leaf) []*ir.Leaf {
+	kind := map[*types.Func]string{}
+	classify := func(fn *types.Func, en *facts.Enum) string {
+		if k, ok := kind[fn]; ok {
+			return k
+		}
+		ne, eq := true, true
+		dom := e.F.Domain(en.Named)
+		for _, v := range dom {
+			r, ok := boolOf(e.F.Eval(fn, v))
+			if !ok {
+				ne, eq = false, false
+				break
+			}
+			isZero := v.Kind == facts.VConst && v.Obj == en.Zero
+			if r == isZero {
+				ne = false
+			}
+			if r != isZero {
+				eq = false
+			}
+		}
+		k := ""
+		switch {
+		case len(dom) == 0:
+		case ne:
+			k = "!="
+		case eq:
+			k = "=="
+		}
+		kind[fn] = k
+		return k
+	}
+	rep := func(t *ir.Term) *ir.Term {
+		fn, _ := t.Obj.(*types.Func)
+		if t.Op != ir.OCall || fn == nil || len(t.Args) != 1 || fn.Pkg() == nil || !load.IsLib(fn.Pkg().Path()) {
+			return nil
+		}
+		sig := fn.Type().(*types.Signature)
+		if sig.Recv() == nil || sig.Params().Len() != 0 || sig.Results().Len() != 1 {
+			return nil
+		}
+		if bt, ok := sig.Results().At(0).Type().Underlying().(*types.Basic); !ok || bt.Kind() != types.Bool {
+			return nil
+		}
+		en := e.F.EnumOf(sig.Recv().Type())
+		if en == nil || en.Zero == nil {
+			return nil
+		}
+		if k := classify(fn, en); k != "" {
+			return ir.Bin(k, ir.Const(en.Zero.Val(), sig.Recv().Type()), t.Args[0])
+		}
+		return nil
+	}
+	out := make([]*ir.Leaf, len(leaves))
+	for i, lf := range leaves {
+		n := *lf
+		n.Guards = make([]*ir.Term, len(lf.Guards))
+		for j, g := range lf.Guards {
+			n.Guards[j] = ir.Replace(g, rep)
+		}
+		out[i] = &n
+	}
+	return out
+}
